@@ -71,6 +71,11 @@ structure Proc (σ : Type) where
   rewind : σ → σ
   bottleneck : Bool
   twoPass : Bool
+  /-- Aliasing: the processors hand the IQR OBJECT they were given downstream (mutated in place), and so
+  does every later stage.  A processor that keeps a reference to what it emitted (tail's finalIqr) therefore
+  sees it as the stages downstream left it: `retain s x` = the state when the batches `x` are what has become
+  of the emitted objects.  Matters only when the chain is rewound and read again. -/
+  retain : σ → List Table → σ := fun s _ => s
 
 def otl : Option Table → List Table
   | none => []
@@ -105,6 +110,13 @@ def runBatches (p : Proc σ) (parts : List Table) : List Table :=
     let s1 := (pass p false p.init parts).1
     (pass p true (p.rewind s1) parts).2
   else (pass p (!p.bottleneck) p.init parts).2
+
+/-- the processor's state when the consumer has fetched until EOF -/
+def runState (p : Proc σ) (parts : List Table) : σ :=
+  if p.twoPass then
+    let s1 := (pass p false p.init parts).1
+    (pass p true (p.rewind s1) parts).1
+  else (pass p (!p.bottleneck) p.init parts).1
 
 /-- what the final consumer sees: all fetched batches appended -/
 def runBatched (p : Proc σ) (parts : List Table) : Table := (runBatches p parts).flatten
@@ -154,6 +166,12 @@ def tailProc (n : Nat) : Proc TailSt where
   rewind := fun s => s
   bottleneck := true
   twoPass := false
+  retain := fun s x =>
+    if s.eof then
+      match s.fin, x with
+      | some _, [b] => { s with fin := some b }   -- finalIqr is the object the downstream stages mutated
+      | _, _ => s
+    else s
 
 /-! ## scroll from -/
 
@@ -377,6 +395,11 @@ def Chain.rewind : Chain → Chain
   | .src parts => .src parts
   | .dp up p s f => .dp up.rewind p (p.rewind s) f
 
+/-- the objects delivered by this chain have become `x` downstream: tell every stage that kept a reference -/
+def Chain.writeBack : Chain → List Table → Chain
+  | .src parts, _ => .src parts
+  | .dp up p s f, x => .dp (up.writeBack x) p (p.retain s x) f
+
 /-- fetch the top DataProcessor until EOF: (chain afterwards, batches delivered).
 `fuel` ≥ number of stages + 1 (the recursion re-reads the rewound upstream, which is not a subterm). -/
 def Chain.read : Nat → Chain → Chain × List Table
@@ -386,7 +409,7 @@ def Chain.read : Nat → Chain → Chain × List Table
     if p.twoPass && !f then
       let u1 := Chain.read n up
       let s1 := (pass p false s u1.2).1
-      let u2 := Chain.read n u1.1.rewind
+      let u2 := Chain.read n (u1.1.writeBack u1.2).rewind
       let r := pass p true (p.rewind s1) u2.2
       (.dp u2.1 p r.1 true, r.2)
     else
